@@ -68,7 +68,8 @@ class NS(object):
 
 
 class LoopSpec(object):
-    def __init__(self, inv, variant=None, modifies_vars=(), modifies_fields=(), fingerprint=None):
+    def __init__(self, inv, variant=None, modifies_vars=(), modifies_fields=(), fingerprint=None, var_types=None):
+        self.var_types = dict(var_types or {})   # local name -> T: representation of a list built by the loop
         self.inv = inv
         self.variant = variant
         self.modifies_vars = list(modifies_vars)
@@ -269,14 +270,15 @@ class Contract(object):
 
 
 def _check_sat(pc):
-    s = z3.Solver()
-    s.set('timeout', 500)
-    s.set('smt.mbqi', False)
-    for a in smt.AXIOMS:
-        s.add(a)
-    for a in pc:
-        s.add(a)
-    return s.check() != z3.unsat
+    def mk():
+        s = z3.Solver()
+        s.set('smt.mbqi', False)
+        for a in smt.AXIOMS:
+            s.add(a)
+        for a in pc:
+            s.add(a)
+        return s
+    return smt.check_trusted(mk, 500)[0] != z3.unsat      # (guards against z3's spurious unsat on cancellation)
 
 
 def _mk_result(c, name, kind, verdict, info, model=None, trace=None, where=None):
@@ -362,7 +364,11 @@ def _solve_split(ob, parts, ext, budget_ms):
 
 
 def discharge(c, ob, budget_ms):
-    goal = expand_goal(ob.goal)
+    goal = ob.goal
+    if (getattr(c, 'opts', None) or {}).get('skolemize'):
+        from .skolem import skolemize            # opt-in: makes terms under goal-side foralls ground
+        goal = skolemize(goal)
+    goal = expand_goal(goal)
     try:
         ext = ext_axioms(list(ob.pc) + [goal])
         parts = _conjuncts(goal)
